@@ -800,6 +800,27 @@ func (env *Env) evalCall(e *Expr) CV {
 		return CV{V: Scalar{arg(0).V.(SliceV).Base}, T: types.Typ[types.Uint64]}
 	case "off":
 		return CV{V: Scalar{arg(0).V.(SliceV).Off}, T: it}
+	case "cast":
+		// cast("*T", x): the pointer x viewed as a pointer of the named type (e.g. the data word of a Codec whose dynamic
+		// type is known from the context)
+		if e.Args[0].Kind != "str" {
+			panic(cerr("cast expects a type name string"))
+		}
+		T := r.e.parseTypeName(env.pkg, e.Args[0].Str)
+		if T == nil {
+			panic(cerr("cast: unknown type %q", e.Args[0].Str))
+		}
+		return CV{V: Scalar{r.scalar(arg(1).V)}, T: T}
+	case "addr":
+		// addr(x): the address of the address-taken local variable x of the function under verification
+		if e.Args[0].Kind != "ident" {
+			panic(cerr("addr expects a local variable"))
+		}
+		sv, ok := r.names["&"+e.Args[0].Name]
+		if !ok {
+			panic(cerr("addr: %s is not an address-taken local", e.Args[0].Name))
+		}
+		return CV{V: r.val(sv), T: sv.Type()}
 	case "strkey":
 		// strkey(s): the identity under which the string s is a map key (a function of its content)
 		return CV{V: Scalar{r.mapKeyOf(env.cur, arg(0).V, types.Typ[types.String])}, T: types.Typ[types.Uint64]}
@@ -894,6 +915,55 @@ func (env *Env) evalCall(e *Expr) CV {
 			}
 		}
 		return CV{V: Scalar{tb.Forall([]*Term{b}, tb.Implies(tb.And(conds...), tb.Eq(tb.Select(env.cur.BH, b), tb.Select(ent.BH, b))))}, T: boolT}
+	case "mapframe":
+		// mapframe(m): every map of m's type other than m itself has the content it had at function entry
+		m := arg(0)
+		mt, ok := m.T.Underlying().(*types.Map)
+		if !ok {
+			panic(cerr("mapframe: not a map"))
+		}
+		k := mapTypeKey(mt)
+		cur := r.mapVer(env.cur, mt)
+		old := r.rootEntry().MapVer[k]
+		if old == nil {
+			old = tb.Var("MV0:"+k, BV64)
+		}
+		if old == cur {
+			return CV{V: Scalar{tb.True()}, T: boolT}
+		}
+		return CV{V: Scalar{r.mapSameExcept(k, []freshMap{{h: r.scalar(m.V), t: mt}}, old, cur)}, T: boolT}
+	case "freshrange":
+		// freshrange(p, n): no address of [p, p+n) was allocated when the function under verification was entered
+		a := r.scalar(arg(0).V)
+		n := argInt(1)
+		k := tb.BoundVar("k", BV64)
+		ra := r.rootEntry().RA
+		return CV{V: Scalar{tb.Forall([]*Term{k}, tb.Implies(tb.ULt(tb.Sub(k, a), n), tb.Not(tb.Select(ra, k))), []*Term{tb.Select(ra, k)})}, T: boolT}
+	case "heapframe":
+		// heapframe("T"): every typed-heap cell of a value of type T at an address allocated at function entry still has
+		// its entry content (the loop-invariant form of the frame condition for typed objects)
+		if e.Args[0].Kind != "str" {
+			panic(cerr("heapframe expects a type name string"))
+		}
+		T := r.e.parseTypeName(env.pkg, e.Args[0].Str)
+		if T == nil {
+			panic(cerr("heapframe: unknown type %q", e.Args[0].Str))
+		}
+		ent := r.rootEntry()
+		var cs []*Term
+		for _, lk := range r.typeLeafKeys(T) {
+			cur := r.e.heapArr(env.cur, lk.key, lk.sort)
+			ini := ent.Heap[lk.key]
+			if ini == nil {
+				ini = r.e.initHeap[lk.key]
+			}
+			if ini == nil || ini == cur {
+				continue
+			}
+			k := tb.BoundVar("k", BV64)
+			cs = append(cs, tb.Forall([]*Term{k}, tb.Implies(tb.Select(ent.RA, k), tb.Eq(tb.Select(cur, k), tb.Select(ini, k)))))
+		}
+		return CV{V: Scalar{tb.And(cs...)}, T: boolT}
 	case "newobj":
 		// not allocated in the old state (function entry when verifying a body; the pre-state at a call site)
 		ent := env.old
@@ -1055,14 +1125,21 @@ func (env *Env) evalCall(e *Expr) CV {
 		a := tb.BoundVar("a", BV64)
 		return CV{V: Scalar{tb.Forall([]*Term{a}, tb.Implies(tb.Not(tb.ULt(tb.Sub(a, v.Off), n)),
 			tb.Eq(tb.Select(tb.Select(env.cur.BH, v.Base), a), tb.Select(tb.Select(env.old.BH, v.Base), a))))}, T: boolT}
-	case "maphas", "mapget":
+	case "maphas", "mapget", "maphask", "mapgetk":
+		// maphask/mapgetk take the key in its map-key form (strkey(s) for strings), so a contract can quantify over keys
 		m := arg(0)
 		mt, ok := m.T.Underlying().(*types.Map)
 		if !ok {
 			panic(cerr("%s: not a map", name))
 		}
 		h := r.scalar(m.V)
-		key := r.mapKeyOf(env.cur, arg(1).V, mt.Key())
+		var key *Term
+		if strings.HasSuffix(name, "k") {
+			key = r.scalar(arg(1).V)
+			name = strings.TrimSuffix(name, "k")
+		} else {
+			key = r.mapKeyOf(env.cur, arg(1).V, mt.Key())
+		}
 		val, has := r.mapLookupVal(env.cur, mt, h, key, "")
 		has = tb.And(tb.Ne(h, tb.BVI(64, 0)), has)
 		if name == "maphas" {
